@@ -82,6 +82,8 @@ class Interp:
         self.n_eqns = 0
         self.guards = []          # stack of domain booleans (path condition), for markers
         self.unwinding = []       # list of (label, residual-condition) from symbolic while loops
+        self.scan_ctx = []        # indices of the enclosing (unrolled) scan iterations
+        self.while_depth = 0      # nesting depth of symbolic while loops (selects the unrolling bound)
         self.handlers = {}        # primitive name -> fn(interp, eqn, invals) -> list of outs
         self.named_calls = {}     # jit name -> fn(interp, eqn, invals) -> list of outs
         # jnp.hypot is a jitted overflow-safe routine (max/min/inf tests); over the reals it is sqrt(a^2+b^2)
@@ -304,7 +306,11 @@ class Interp:
         order = range(length - 1, -1, -1) if reverse else range(length)
         for i in order:
             xi = [x[i] for x in xs]
-            outs = self.eval_closed(body, list(consts) + carry + xi)
+            self.scan_ctx.append(i)
+            try:
+                outs = self.eval_closed(body, list(consts) + carry + xi)
+            finally:
+                self.scan_ctx.pop()
             carry = list(outs[:ncarry])
             ys.append(outs[ncarry:])
         if reverse:
@@ -338,11 +344,18 @@ class Interp:
             it += 1
             if it > 10000:
                 raise Unsupported("concrete while loop exceeds 10000 iterations")
-            state = list(self.eval_closed(p["body_jaxpr"], list(bconsts) + state))
+            self.while_depth += 1
+            try:
+                state = list(self.eval_closed(p["body_jaxpr"], list(bconsts) + state))
+            finally:
+                self.while_depth -= 1
         # symbolic phase: bounded unrolling with ite-merging
         if not self.dom.can_branch:
             raise Undecided(f"while predicate undecided: {c[()]!r}")
-        K = self.while_bound
+        wb = self.while_bound
+        K = wb[min(self.while_depth, len(wb) - 1)] if isinstance(wb, (list, tuple)) else wb
+        K = max(0, K - it)       # iterations already executed concretely count towards the bound
+        self.while_depth += 1
         for k in range(K):
             c = self.eval_closed(p["cond_jaxpr"], list(cconsts) + state)[0]
             t = None if (is_sym(c) and self.dom.decide(c[()]) is None) else self._truth(c)
@@ -353,9 +366,11 @@ class Interp:
             new = list(self.eval_closed(p["body_jaxpr"], list(bconsts) + state))
             self.guards.pop()
             state = self.merge(cond, new, state) if t is None else new
+        self.while_depth -= 1
         c = self.eval_closed(p["cond_jaxpr"], list(cconsts) + state)[0]
         resid = c[()] if is_sym(c) else self.dom.bool_const(bool(np.asarray(c)))
-        self.unwinding.append({"bound": K, "guard": self.guard(), "residual": resid})
+        self.unwinding.append({"bound": K, "guard": self.guard(), "residual": resid, "depth": self.while_depth,
+                               "scan": list(self.scan_ctx)})
         return state
 
     def do_cond(self, eqn, invals):
